@@ -229,6 +229,65 @@ def glyph_cond_targets():
 
 TARGETS += glyph_cond_targets()
 
+def glyph_step_targets():
+    G = "pixman/pixman-glyph.c"
+    arr = {"cache->glyphs": "slot"}
+    cnt = {"cache->n_glyphs": ("n_glyphs", "int"), "cache->n_tombstones": ("n_tombstones", "int")}
+    return [
+        dict(kind="step", file=G, func="lookup_glyph", name="lookup_glyph_step", loop=0, mode="mixed", arrays=arr,
+             ptrvals=["font_key", "glyph_key"], ptrlocals=["g"], expect=["glyphs", "font_key"],
+             mem={"g->font_key": ("slot_font_key", "ptr"), "g->glyph_key": ("slot_glyph_key", "ptr")}),
+        dict(kind="step", file=G, func="insert_glyph", name="insert_glyph_step", loop=0, mode="mixed", arrays=arr,
+             expect=["glyphs", "loc"]),
+        dict(kind="step", file=G, func="remove_glyph", name="remove_glyph_find_step", loop=0, mode="mixed", arrays=arr,
+             ptrvals=["glyph"], expect=["glyphs", "glyph"]),
+        dict(kind="step", file=G, func="remove_glyph", name="remove_glyph_clear_step", loop=1, mode="mixed", arrays=arr,
+             mem=cnt, expect=["glyphs", "n_tombstones"]),
+        dict(kind="step", file=G, func="remove_glyph", name="remove_glyph_mark", stmts=(3, 6), mode="mixed", arrays=arr,
+             mem=cnt),
+        dict(kind="step", file=G, func="remove_glyph", name="remove_glyph_next_empty", cond_of_if=0, mode="mixed", arrays=arr,
+             expect=["glyphs", "idx"]),
+        dict(kind="step", file=G, func="insert_glyph", name="insert_glyph_store", stmts=(4, 7), mode="mixed", arrays=arr,
+             mem=cnt, ptrvals=["glyph"], aliases={"loc": "slot"}),
+    ]
+
+
+TARGETS += glyph_step_targets()
+
+def region_step_targets():
+    R = "pixman/pixman-region32.c"
+    ext = {"region->extents.x1": ("ext_x1", "int32_t"), "region->extents.y1": ("ext_y1", "int32_t"),
+           "region->extents.x2": ("ext_x2", "int32_t"), "region->extents.y2": ("ext_y2", "int32_t")}
+    pb = {"pbox->x1": ("box_x1", "int32_t"), "pbox->y1": ("box_y1", "int32_t"),
+          "pbox->x2": ("box_x2", "int32_t"), "pbox->y2": ("box_y2", "int32_t")}
+    po = {"pbox_out->x1": ("out_x1", "int32_t"), "pbox_out->y1": ("out_y1", "int32_t"),
+          "pbox_out->x2": ("out_x2", "int32_t"), "pbox_out->y2": ("out_y2", "int32_t"),
+          "region->data->numRects": ("num_rects", "long")}
+    f = "pixman_region32_translate"
+    bx = {"box->x1": ("box_x1", "int32_t"), "box->x2": ("box_x2", "int32_t")}
+    pc = {"prev_box->x1": ("prev_x1", "int32_t"), "prev_box->x2": ("prev_x2", "int32_t"),
+          "cur_box->x1": ("cur_x1", "int32_t"), "cur_box->x2": ("cur_x2", "int32_t"),
+          "prev_box->y2": ("prev_y2", "int32_t")}
+    return [
+        dict(kind="step", file=R, func=f, name="region32_translate_sums", stmts=(7, 11), mode="mixed", mem=ext),
+        dict(kind="step", file=R, func=f, name="region32_translate_inrange", cond_of_if=0, mode="mixed", expect=["x1", "y2"]),
+        dict(kind="step", file=R, func=f, name="region32_translate_outside", cond_of_if=2, mode="mixed", expect=["x2", "y1"]),
+        dict(kind="step", file=R, func=f, name="region32_translate_clamp_extents", stmts=(13, 17), mode="mixed", mem=ext),
+        dict(kind="step", file=R, func="pixman_set_extents", name="region32_set_extents_step", loop=0, mode="mixed",
+             mem=dict(bx, **ext), ptrlocals=["box", "box_end"], expect=["box_end", "extents"]),
+        dict(kind="step", file=R, func="pixman_coalesce", name="region32_coalesce_compare_step", loop=0, mode="mixed",
+             mem=pc, ptrlocals=["prev_box", "cur_box"], expect=["cur_box", "x1"]),
+        dict(kind="step", file=R, func="pixman_coalesce", name="region32_coalesce_merge_step", loop=1, mode="mixed",
+             mem=pc, ptrlocals=["prev_box", "cur_box"], expect=["prev_box", "y2"]),
+        dict(kind="step", file=R, func=f, name="region32_translate_move_step", loop=0, mode="mixed", mem=pb,
+             ptrlocals=["pbox"], expect=["pbox", "nbox"]),
+        dict(kind="step", file=R, func=f, name="region32_translate_clamp_step", loop=1, mode="mixed", mem=dict(pb, **po),
+             ptrlocals=["pbox", "pbox_out"], expect=["pbox_out", "numRects"]),
+    ]
+
+
+TARGETS += region_step_targets()
+
 LEAN_KEYWORDS = {"at", "from", "end", "open", "show", "have", "fun", "let", "then", "do", "in", "if", "else", "by",
                  "at", "with", "match", "where", "for", "def", "theorem", "instance", "structure", "class", "namespace",
                  "section", "import", "mut", "return", "repeat", "calc", "using", "from", "Type", "Prop", "Sort",
@@ -738,6 +797,10 @@ class Parser:
         elif k == "id":
             self.eat()
             e = ("id", v)
+        elif k == "str":
+            while self.peek()[0] == "str":
+                self.eat()
+            e = ("str", v)
         elif k == "op" and v == "(":
             self.eat()
             e = self.expr()
@@ -813,7 +876,7 @@ class Parser:
             self.eat("op", ")")
             self.eat("op", ";")
             if c != ("num", (0, "", False)):
-                fail("do-while whose condition is not the literal 0")
+                return ("dowhile", body, c)
             return body
         if k == "id" and v == "for":
             self.eat()
@@ -851,7 +914,11 @@ class Parser:
             self.eat()
             self.eat("op", ";")
             return ("break",)
-        if k == "id" and v in ("goto", "continue", "case", "default"):
+        if k == "id" and v == "continue":
+            self.eat()
+            self.eat("op", ";")
+            return ("continue",)
+        if k == "id" and v in ("goto", "case", "default"):
             fail(f"statement `{v}` is not supported")
         if k == "id" and v == "__verif_assert":
             self.eat()
@@ -1270,7 +1337,10 @@ class Translator:
             fail("sizeof of a struct type")
         if k == "cast":
             ty, nptr = e[1]
-            if nptr or not isinstance(ty, CT):
+            if nptr:
+                inner = self.ex(e[2])
+                return self.conv(inner, ULONG, explicit=True)
+            if not isinstance(ty, CT):
                 fail(f"{self.tgt['func']}: cast to a non-integer type")
             if e[2][0] == "id" and e[2][1] in self.ptrvals:
                 return self.conv(E(lname(e[2][1]), ULONG), ty, explicit=True)
@@ -3020,6 +3090,405 @@ def translate_condition(env, tgt):
     return fi
 
 
+
+# =============================================================================== one loop iteration ("step")
+class StepLower:
+    """AST pre-pass for a loop iteration: side effects inside expressions (`x++`, `a = b` in a condition) become
+    statements; reads / writes of the array operands (`cache->glyphs[E]`) become: read -> an input variable
+    `<name>N` holding the content plus the assignment `<name>N_index = E` (a result: which slot is read);
+    write -> `<name>_wr_index = E; <name>_wr_value = v; <name>_wr_done = 1`; `p = &array[E]` makes `*p` such an
+    operand."""
+
+    def __init__(self, fn, arrays, ptr_aliasable):
+        self.fn, self.arrays, self.aliasable = fn, arrays, ptr_aliasable
+        self.reads = {}          # array name -> list of (index AST, content variable)
+        self.alias = {}          # pointer local -> (array name, index AST)
+        self.nread = 0
+        self.ntmp = 0
+        self.pseudo = {}         # pseudo variable -> kind ("index" | "value" | "flag" | "content" | "tmp")
+
+    def array_of(self, e):
+        """(array name, index AST) if e is `BASE[E]` / `*p` for an aliased p"""
+        if e[0] == "deref" and e[1][0] == "id" and e[1][1] in self.alias:
+            return self.alias[e[1][1]]
+        if e[0] == "deref" and e[1][0] == "bin" and e[1][1] == "+":
+            for ast, nm in self.arrays:
+                if e[1][2] == ast:
+                    return (nm, e[1][3])
+        return None
+
+    def invalidate(self, var):
+        for nm in self.reads:
+            self.reads[nm] = [(ix, v) for ix, v in self.reads[nm] if not mentions(ix, ("id", var))]
+
+    def asg(self, var, e):
+        self.invalidate(var)
+        return ("expr", ("assign", "=", ("id", var), e))
+
+    def expr(self, e):
+        """-> (pre statements, value AST, post statements)"""
+        if not isinstance(e, tuple) or not e or e[0] in ("num", "id", "sizeof"):
+            return [], e, []
+        k = e[0]
+        if k == "postinc" and e[2][0] == "id":
+            one = ("num", (1, "", False))
+            return [], e[2], [self.asg(e[2][1], ("bin", e[1], e[2], one))]
+        if k == "preinc" and e[2][0] == "id":
+            one = ("num", (1, "", False))
+            return [self.asg(e[2][1], ("bin", e[1], e[2], one))], e[2], []
+        if k == "assign":
+            op, lv, rhs = e[1], e[2], e[3]
+            arr = self.array_of(lv)
+            if lv[0] == "id" and lv[1] in self.aliasable and op == "=" and rhs[0] == "addr":
+                tgt = self.array_of(rhs[1])
+                if tgt is None:
+                    fail(f"{self.fn}: pointer {lv[1]} assigned something that is not an array operand")
+                pe, ev, poe = self.expr(tgt[1])
+                self.ntmp += 1
+                ix = f"{tgt[0]}_ix{self.ntmp}"
+                self.pseudo[ix] = "tmp"
+                self.alias[lv[1]] = (tgt[0], ("id", ix))
+                return pe + [self.asg(ix, ev)] + poe, ("num", (0, "", False)), []
+            pr, rv, po = self.expr(rhs)
+            if arr is not None:
+                pe, ev, poe = self.expr(arr[1])
+                if op != "=":
+                    cur = self.read(arr[0], ev)
+                    pe = pe + cur[0]
+                    rv = ("bin", op[:-1], cur[1], rv)
+                nm = arr[0]
+                for sfx, kind in (("_wr_index", "index"), ("_wr_value", "value"), ("_wr_done", "flag")):
+                    self.pseudo[nm + sfx] = kind
+                self.reads[nm] = []
+                st = [self.asg(nm + "_wr_index", ev), self.asg(nm + "_wr_value", rv),
+                      self.asg(nm + "_wr_done", ("num", (1, "", False)))]
+                return pr + pe + st + po + poe, rv, []
+            if lv[0] != "id":
+                pl, lv2, pol = self.expr_lvalue(lv)
+                return pr + pl + [("expr", ("assign", op, lv2, rv))] + po + pol, lv2, []
+            self.invalidate(lv[1])
+            return pr + [("expr", ("assign", op, lv, rv))] + po, lv, []
+        arr = self.array_of(e)
+        if arr is not None:
+            pe, ev, poe = self.expr(arr[1])
+            pre2, val = self.read(arr[0], ev)
+            return pe + pre2, val, poe
+        if k == "bin" and e[1] in ("&&", "||"):
+            pa, va, poa = self.expr(e[2])
+            pb, vb, pob = self.expr(e[3])
+            if any(st[1][2][0] != "id" or self.pseudo.get(st[1][2][1]) != "index" for st in pb) or pob:
+                fail(f"{self.fn}: side effect in the right operand of {e[1]}")
+            return pa + pb, ("bin", e[1], va, vb), poa
+        if k == "cond":
+            pc, vc, poc = self.expr(e[1])
+            pa, va, poa = self.expr(e[2])
+            pb, vb, pob = self.expr(e[3])
+            if pa or pb or poa or pob:
+                fail(f"{self.fn}: side effect inside ?:")
+            return pc, ("cond", vc, va, vb), poc
+        pre, post, parts = [], [], [k]
+        for x in e[1:]:
+            if isinstance(x, tuple):
+                p1, v1, q1 = self.expr(x)
+                pre += p1
+                post += q1
+                parts.append(v1)
+            elif isinstance(x, list):
+                lst = []
+                for y in x:
+                    p1, v1, q1 = self.expr(y)
+                    pre += p1
+                    post += q1
+                    lst.append(v1)
+                parts.append(lst)
+            else:
+                parts.append(x)
+        return pre, tuple(parts), post
+
+    def expr_lvalue(self, lv):
+        return [], lv, []
+
+    def read(self, nm, ev):
+        for ix, v in self.reads.get(nm, []):
+            if ix == ev:
+                return [], ("id", v)
+        self.nread += 1
+        v = f"{nm}{self.nread}"
+        self.pseudo[v] = "content"
+        self.pseudo[v + "_index"] = "index"
+        self.reads.setdefault(nm, []).append((ev, v))
+        return [("expr", ("assign", "=", ("id", v + "_index"), ev))], ("id", v)
+
+    def cond(self, c):
+        """-> (statements, pure condition AST)"""
+        pre, v, post = self.expr(c)
+        if not post:
+            return pre, v
+        self.ntmp += 1
+        t = f"cnd{self.ntmp}"
+        self.pseudo[t] = "cond"
+        return pre + [("expr", ("assign", "=", ("id", t), ("bin", "!=", v, ("num", (0, "", False)))))] + post, ("id", t)
+
+    def stmt(self, st):
+        k = st[0]
+        if k == "block":
+            out = []
+            for x in st[1]:
+                out += self.stmt(x)
+            return [("block", out)]
+        if k == "expr":
+            pre, v, post = self.expr(st[1])
+            keep = [("expr", v)] if side_effect(v) else []
+            return pre + keep + post
+        if k == "if":
+            pre, v = self.cond(st[1])
+            saved = ({n: list(l) for n, l in self.reads.items()}, dict(self.alias))
+            a = self.stmt(st[2])
+            ra = self.reads
+            self.reads, self.alias = {n: list(l) for n, l in saved[0].items()}, dict(saved[1])
+            b = self.stmt(st[3]) if st[3] is not None else []
+            rb = self.reads
+            self.reads = {n: [x for x in ra.get(n, []) if x in rb.get(n, [])] for n in ra}
+            return pre + [("if", v, ("block", a), ("block", b) if st[3] is not None else None)]
+        if k == "return":
+            return [st]
+        if k == "decl":
+            if st[3] is None:
+                return [st]
+            pre, v, post = self.expr(st[3])
+            return pre + [("decl", st[1], st[2], v)] + post
+        fail(f"{self.fn}: statement {k} inside a loop step is not supported")
+
+
+def find_loops(st, out):
+    if not isinstance(st, tuple):
+        return
+    if st[0] in ("while", "dowhile", "for"):
+        out.append(st)
+    for x in st[1:]:
+        if isinstance(x, tuple):
+            find_loops(x, out)
+        elif isinstance(x, list):
+            for y in x:
+                if isinstance(y, tuple):
+                    find_loops(y, out)
+
+
+def collect_decls(st, out):
+    if not isinstance(st, tuple):
+        return
+    if st[0] == "decl":
+        out.append(st)
+    for x in st[1:]:
+        if isinstance(x, tuple):
+            collect_decls(x, out)
+        elif isinstance(x, list):
+            for y in x:
+                if isinstance(y, tuple):
+                    collect_decls(y, out)
+
+
+def translate_step(env, tgt, funcs):
+    """kind "step": one iteration of the k-th loop of a function (or, with `stmts=(i, j)`, the statements i..j-1
+    of the function body) as a definition
+        inputs (loop state, memory operands, array contents)  ->  (status, new loop state, array index / write results)
+    status: 0 = the loop ends (condition false / break), 1 = next iteration, 2.. = the n-th `return` of the body."""
+    name = tgt["func"]
+    header, ptext, btext = find_function(env.text, name)
+    pr = Parser(lex(btext), env)
+    blk = pr.block()
+    params = parse_params(ptext, env)
+    decls = []
+    collect_decls(blk, decls)
+    arrays = []
+    for cexpr, nm in tgt.get("arrays", {}).items():
+        q = Parser(lex(cexpr), env)
+        arrays.append((q.expr(), nm))
+    aliasable = {d[2] for d in decls if d[1][1] >= 1 and d[2] not in tgt.get("ptrlocals", [])}
+    low = StepLower(name, arrays, aliasable)
+    pre_alias = {}
+    for pl, arrname in tgt.get("aliases", {}).items():
+        # a pointer local set before the extracted statements: `*p` is the array element with index `<p>_index`
+        if pl not in aliasable:
+            fail(f"{name}: {pl} is not a pointer local")
+        low.alias[pl] = (arrname, ("id", pl + "_index"))
+        pre_alias[pl + "_index"] = UINT
+    EXIT, CONT = ("num", (0, "", False)), ("num", (1, "", False))
+    nret = [1]
+    cont_stmts = []          # what `continue` runs before the next iteration (the step expression of a for loop)
+
+    def fixret(st):
+        if not isinstance(st, tuple):
+            return st
+        if st[0] == "return":
+            nret[0] += 1
+            return ("return", ("num", (nret[0], "", False)))
+        if st[0] == "break":
+            return ("return", EXIT)
+        if st[0] == "continue":
+            return ("block", list(cont_stmts) + [("return", CONT)])
+        if st[0] in ("while", "dowhile", "for", "switch"):
+            fail(f"{name}: nested loop / switch inside a loop step")
+        return tuple(fixret(x) if isinstance(x, tuple) else ([fixret(y) for y in x] if isinstance(x, list) else x) for x in st)
+    if "cond_of_if" in tgt:
+        ifs = []
+
+        def find_ifs(st):
+            if isinstance(st, tuple):
+                if st and st[0] == "if":
+                    ifs.append(st)
+                for x in st[1:]:
+                    if isinstance(x, tuple):
+                        find_ifs(x)
+                    elif isinstance(x, list):
+                        for y in x:
+                            find_ifs(y)
+        find_ifs(blk)
+        if tgt["cond_of_if"] >= len(ifs):
+            fail(f"{name}: has only {len(ifs)} if statements")
+        c = ifs[tgt["cond_of_if"]][1]
+        for w in tgt.get("expect", []):
+            if not mentions_id(c, w):
+                fail(f"{name}: if #{tgt['cond_of_if']} does not mention {w} (the numbering changed?)")
+        pre, cv = low.cond(c)
+        stmts = pre + [("if", cv, ("return", CONT), None), ("return", EXIT)]
+    elif "stmts" in tgt:
+        i, j = tgt["stmts"]
+        body = [fixret(x) for x in blk[1][i:j]]
+        stmts = []
+        for x in body:
+            stmts += low.stmt(x)
+        stmts.append(("return", EXIT))
+    else:
+        loops = []
+        find_loops(blk, loops)
+        if tgt["loop"] >= len(loops):
+            fail(f"{name}: has only {len(loops)} loops")
+        lp = loops[tgt["loop"]]
+        for w in tgt.get("expect", []):
+            if not mentions_id(lp, w):
+                fail(f"{name}: loop {tgt['loop']} does not mention {w} (the numbering of the loops changed?)")
+        if lp[0] == "while":
+            pre, cv = low.cond(lp[1])
+            stmts = pre + [("if", ("un", "!", cv), ("return", EXIT), None)] + low.stmt(fixret(lp[2])) + [("return", CONT)]
+        elif lp[0] == "dowhile":
+            stmts = low.stmt(fixret(lp[1]))
+            pre, cv = low.cond(lp[2])
+            stmts += pre + [("if", cv, ("return", CONT), None), ("return", EXIT)]
+        else:
+            # for (init; cond; step) body: one iteration = cond, body, step
+            if lp[2] is None:
+                fail(f"{name}: for loop without a condition")
+            pre, cv = low.cond(lp[2])
+            stepst = low.stmt(("expr", lp[3])) if lp[3] is not None else []
+            cont_stmts.extend(stepst)
+            stmts = pre + [("if", ("un", "!", cv), ("return", EXIT), None)] + low.stmt(fixret(lp[4])) + stepst + [("return", CONT)]
+    # ---- variables
+    tr_tgt = dict(tgt, func=name)
+    types = {}
+    for pn, pt, pnp in params:
+        if pnp == 0 and isinstance(pt, CT):
+            types[pn] = pt
+        elif pnp >= 1 and pn in tgt.get("ptrvals", []):
+            types[pn] = ULONG
+    for d in decls:
+        (dt, dn), nm = d[1], d[2]
+        if dn == 0 and isinstance(dt, CT):
+            types[nm] = dt
+        elif nm in tgt.get("ptrlocals", []):
+            types[nm] = ULONG
+    for v, kind in low.pseudo.items():
+        types[v] = {"index": UINT, "flag": UINT, "tmp": UINT, "cond": INT}.get(kind, ULONG)
+    types.update(pre_alias)
+    roots = {pn: (pt, pnp) for pn, pt, pnp in params}
+    for d in decls:
+        roots[d[2]] = d[1]
+
+    def mk():
+        tr = Translator(env, tr_tgt, funcs=funcs)
+        tr.ret = INT
+        for v, t in types.items():
+            tr.vars[v] = t
+            kind = low.pseudo.get(v)
+            if kind in (None, "content"):
+                tr.defined.add(v)           # inputs: loop state and array contents
+            if v in tgt.get("ptrvals", []) or v in tgt.get("ptrlocals", []):
+                pass
+        for cexpr, spec in tgt.get("mem", {}).items():
+            q = Parser(lex(cexpr), env)
+            mast = q.expr()
+            nm, tyname = spec
+            if tyname == "ptr":
+                cty = ULONG
+                t = env.path_type(mast, roots)
+                if not (t[1] >= 1 and t[2] == 0):
+                    fail(f"{name}: memory operand {cexpr!r} is not a pointer")
+            else:
+                cty = env.resolve(tyname.split())
+                t = env.path_type(mast, roots)
+                if not isinstance(cty, CT) or t[1] or t[2] or t[0] != cty:
+                    fail(f"{name}: memory operand {cexpr!r} has C type {t}, not {tyname}")
+            tr.mem.append((mast, nm))
+            tr.vars[nm] = cty
+            tr.defined.add(nm)
+        # write flags start at 0
+        return tr
+    inits = [("expr", ("assign", "=", ("id", v), ("num", (0, "", False)))) for v, kind in low.pseudo.items()
+             if kind in ("flag",)] + \
+            [("expr", ("assign", "=", ("id", v), ("num", (0, "", False)))) for v, kind in low.pseudo.items()
+             if kind in ("index", "value") and v.endswith(("_wr_index", "_wr_value"))]
+    # declarations met again inside the step must not clash with the registered variables
+    def strip_decl(st):
+        if isinstance(st, tuple) and st[0] == "decl":
+            return ("block", []) if st[3] is None else ("expr", ("assign", "=", ("id", st[2]), st[3]))
+        if isinstance(st, tuple):
+            return tuple(strip_decl(x) if isinstance(x, tuple) else ([strip_decl(y) for y in x] if isinstance(x, list) else x) for x in st)
+        return st
+    stmts = [strip_decl(x) for x in inits + stmts]
+    probe = mk()
+    Body(probe, False, lambda v: "0").seq(stmts, lambda: "0")
+    outs = [v for v in types if v in probe.assigned and low.pseudo.get(v) not in ("tmp", "cond")] + \
+           [nm for _, nm in probe.mem if nm in probe.assigned]
+    tr = mk()
+
+    def ret_text(v):
+        for o in outs:
+            if o not in tr.defined:
+                fail(f"{name}: result {o} has no value on some path")
+            if o not in tr.written:
+                tr.input_reads.add(o)
+        return "(" + ", ".join([v] + [lname(o) for o in outs]) + ")"
+    text = Body(tr, False, ret_text).seq(stmts, lambda: fail(f"{name}: step falls off its end"))
+    ins = [v for v in list(types) + [nm for _, nm in tr.mem] if v in tr.input_reads]
+    allv = dict(types)
+    allv.update({nm: tr.vars[nm] for _, nm in tr.mem})
+    fi = FuncInfo()
+    fi.cname, fi.lean, fi.mode = name, lname(tgt["name"]), tr.mode
+    args = " ".join(f"({lname(v)} : {tr.ltype(allv[v])})" for v in ins)
+    rty = " × ".join([tr.ltype(INT)] + [tr.ltype(allv[o]) for o in outs])
+    sig = ", ".join(f"{v} : {allv[v].cname()}" for v in ins)
+    res = ", ".join(["status : 0 loop ends / 1 next iteration / 2.. n-th return"] + [f"{o} : {allv[o].cname()}" for o in outs])
+    what = (f"condition of if #{tgt['cond_of_if']} (status 1 = true)" if "cond_of_if" in tgt else
+            f"statements {tgt['stmts']}" if "stmts" in tgt else f"one iteration of loop #{tgt['loop']}")
+    fi.text = (f"/-- `{tgt['file']}:{name}`, {what} ({tr.mode} mode).  Arguments: {sig}.  Result: ({res}). -/\n"
+               f"def {fi.lean} {args} : {rty} :=\n{Body.ind(None, text)}\n")
+    if "NEGATIVE_CONSTANT" in fi.text:
+        fail(f"{name}: a negative constant survives")
+    return fi
+
+
+def mentions_id(e, w):
+    if isinstance(e, tuple):
+        if e[:1] == ("id",) and len(e) > 1 and e[1] == w:
+            return True
+        if e and e[0] == "field" and e[2] == w:
+            return True
+        return any(mentions_id(x, w) for x in e[1:] if isinstance(x, (tuple, list)))
+    if isinstance(e, list):
+        return any(mentions_id(x, w) for x in e)
+    return False
+
+
 def probe_param_vars(tr, nm, env):
     """member variables of struct parameter nm, in declaration order"""
     return [nm + "_" + f for f in env.struct_fields(tr.tgt["structs"][nm]) if f is not None and nm + "_" + f in tr.vars]
@@ -3059,6 +3528,10 @@ def main():
             env = envs[key]
             if tgt.get("kind") == "cond":
                 fi = translate_condition(env, tgt)
+                chunks.append(fi.text)
+                continue
+            if tgt.get("kind") == "step":
+                fi = translate_step(env, tgt, funcs)
                 chunks.append(fi.text)
                 continue
             fi = translate_function(env, tgt, funcs)
